@@ -292,10 +292,32 @@ def check(pid, tier, seed):
                 fn(o, cx)
             else:
                 o.notes.append("extra check %s not built yet" % ex)
+        # a proof obligation (or a tie to the generated Gallina) broke and the quick suites found no input on
+        # which the property fails: search deeper before answering - the thorough generators of the same suites
+        # (exhaustive over words / tokens where the quick ones sample).  Never runs on a tree whose proofs check.
+        if tier == "quick" and any(b.get("kind") == "proof-obligation" for b in o.broken) and not unlisted(o):
+            o.notes.append("a proof obligation broke and the quick suites found no failing input: the thorough "
+                           "generators of the same suites were run as the failing-input search")
+            cxt = suites.Ctx(GEN, seed, "thorough")
+            for sname in PROPS[pid]["suites"]:
+                run_suite(o, cxt, sname, label=sname + "@search")
+                if unlisted(o):
+                    break
     except core.BuildError as e:
         o.broken.append(dict(kind="build", what=e.what, detail=e.out[-3000:]))
 
     return verdict(o, t0)
+
+
+def unlisted(o):
+    """concrete failures found so far that the known-findings file does not list"""
+    kf = known_findings(o.pid)
+    keys = set()
+    for k in kf["finding"]:
+        m = re.match(r"key=(\S+)", k)
+        if m:
+            keys.add(m.group(1))
+    return [d for d in o.direct + o.spec if not (d.get("key") and d.get("key") in keys)] or o.corr
 
 
 def verdict(o, t0):
